@@ -23,7 +23,14 @@
    * ReverseStr is modelled on the rune sequence: the conversions
      [[]rune(str)] and [T(res)] are Go's UTF-8 decoder/encoder (modelled, not
      verified; mutually inverse on valid scalar values);
-   * Flatten is [flatten] of C11_Model.v (it shares baseFlatten with Union). *)
+   * Flatten is [flatten] of C11_Model.v (it shares baseFlatten with Union);
+   * Go's int is 64 bits wide: where the code does arithmetic on an int
+     ARGUMENT (Chunk: [i+size]; Drop: [-len(slice)], [len(slice)+n]) the model
+     wraps explicitly ([wrap64], [abs64]) and a slice expression with an
+     out-of-range bound is [Panic]; lengths and indices below [len] are [nat];
+   * the last part of the section ("loop forms at index level") re-states the
+     iterating helpers with their own index arithmetic and an arbitrary
+     stateful callback; C12_Props.v proves them equal to the folds above. *)
 
 From Gogu Require Import Base C11_Model.
 
@@ -42,6 +49,18 @@ Fixpoint set_nth {B : Type} (l : list B) (i : nat) (v : B) : list B :=
   | _ :: r, O => v :: r
   | x :: r, S i' => x :: set_nth r i' v
   end.
+
+(* Go's int is 64 bits wide on every platform the library is tested on:
+   arithmetic on an int ARGUMENT (Chunk's size, Drop's count) wraps around.
+   Lengths and indices below len(slice) are naturals; where the code adds such
+   an argument to an index or subtracts it from a length the wrap is explicit.
+   [Z.to_nat] is only ever applied to values already compared (in Z) with a
+   length, so that no huge unary number is built when the model is run. *)
+Definition max_int64 : Z := 9223372036854775807.
+Definition min_int64 : Z := -9223372036854775808.
+Definition wrap64 (z : Z) : Z := (z + 9223372036854775808) mod 18446744073709551616 - 9223372036854775808.
+(* math.go:38 Abs:  if x < 0 { return -x }; return x   — Abs(MinInt) = MinInt (used by [drop_unrepaired]) *)
+Definition abs64 (n : Z) : Z := if n <? 0 then wrap64 (- n) else n.
 
 Section Reshape.
   Context {A : Type}.
@@ -115,24 +134,54 @@ Section Reshape.
        if size <= 0 { panic }
        for i := 0; i < len(slice); i++ {
          if i%size == 0 { if i+size < len(slice) { append slice[i:i+size] } else { append slice[i:] } } } *)
-  Definition chunk_step (slice : list A) (size : nat) (result : list (list A)) (i : nat) : list (list A) :=
-    if (i mod size =? 0)%nat then
-      if (i + size <? length slice)%nat
-      then result ++ [firstn size (skipn i slice)]
-      else result ++ [skipn i slice]
-    else result.
+  (* the loop body; [i < len(slice)], [size > 0]:  i%size on non-negative operands is [mod];
+     i+size wraps; slice[i:hi] panics unless i <= hi (hi < len <= cap is known in that branch) *)
+  Definition chunk_step (slice : list A) (size : Z) (st : res (list (list A))) (i : nat) : res (list (list A)) :=
+    match st with
+    | Ok result =>
+        if Z.of_nat i mod size =? 0 then
+          let hi := wrap64 (Z.of_nat i + size) in
+          if hi <? Z.of_nat (length slice) then
+            if Z.of_nat i <=? hi
+            then Ok (result ++ [firstn (Z.to_nat (hi - Z.of_nat i)) (skipn i slice)])
+            else Panic
+          else Ok (result ++ [skipn i slice])
+        else Ok result
+    | other => other
+    end.
   Definition chunk (slice : list A) (size : Z) : res (list (list A)) :=
     if size <=? 0 then Panic
-    else Ok (fold_left (chunk_step slice (Z.to_nat size)) (seq 0 (length slice)) []).
+    else fold_left (chunk_step slice size) (seq 0 (length slice)) (Ok []).
 
-  (* ---------- slice.go:425  Drop ----------
+  (* ---------- slice.go:425  Drop, after  fix: Drop no longer panics for n = math.MinInt (0f1558a) ----------
+       if n > 0 && n < len(slice) { return slice[n:] }
+       if n <= 0 && n > -len(slice) { return slice[:len(slice)+n] }
+       return []T{}
+     -len(slice) and len(slice)+n are int arithmetic: written with the wrap; a slice expression with
+     an out-of-range bound is [Panic] (the theorems prove it never happens) *)
+  Definition drop (slice : list A) (n : Z) : res (list A) :=
+    let len := Z.of_nat (length slice) in
+    if (n >? 0) && (n <? len) then Ok (skipn (Z.to_nat n) slice)     (* slice[n:], 0 < n < len *)
+    else if (n <=? 0) && (n >? wrap64 (- len)) then
+      let hi := wrap64 (len + n) in                                  (* slice[:len(slice)+n] *)
+      if (0 <=? hi) && (hi <=? len) then Ok (firstn (Z.to_nat hi) slice)
+      else Panic
+    else Ok [].
+
+  (* the code BEFORE the repair (kept only for C12_drop_min_int_unrepaired_refuted):
        if Abs(n) < len(slice) { if n > 0 { return slice[n:] } else { return slice[:len(slice)-Abs(n)] } }
-       return []T{} *)
-  Definition drop (slice : list A) (n : Z) : list A :=
-    if Z.abs n <? Z.of_nat (length slice) then
-      if n >? 0 then skipn (Z.to_nat n) slice
-      else firstn (length slice - Z.to_nat (Z.abs n)) slice
-    else [].
+       return []T{}
+     Abs(math.MinInt) wraps to math.MinInt, which IS < len(slice): the else branch then slices
+     up to len(slice)-MinInt, a wrapped negative bound — an index panic for every slice *)
+  Definition drop_unrepaired (slice : list A) (n : Z) : res (list A) :=
+    let len := Z.of_nat (length slice) in
+    if abs64 n <? len then
+      if n >? 0 then Ok (skipn (Z.to_nat n) slice)
+      else
+        let hi := wrap64 (len - abs64 n) in
+        if (0 <=? hi) && (hi <=? len) then Ok (firstn (Z.to_nat hi) slice)
+        else Panic
+    else Ok [].
 
   (* ---------- slice.go:465 mapByIndex, slice.go:481 GroupBy ----------
        for idx, v := range mapSlice { result[v] = append(result[v], origSlice[idx]) }
@@ -250,4 +299,86 @@ Section Reshape.
   Definition cell (m : list (list A)) (i j : nat) : option A :=
     match nth_error m i with Some row => nth_error row j | None => None end.
 
+  (* ---------- the two loop forms of the iterators, at index level ----------
+     [for idx, v := range slice { body }] evaluates len(slice) once and reads
+     slice[idx] for idx = 0, 1, …; [for i := len(slice)-1; i >= 0; i-- { … slice[i] … }]
+     reads downwards.  The body gets the state, the index and the element. *)
+  Fixpoint range_loop {St : Type} (body : St -> nat -> A -> St) (fuel : nat) (slice : list A)
+           (idx : nat) (st : St) : loop St :=
+    if (idx <? length slice)%nat then
+      match fuel with
+      | O => NoFuel
+      | S f => match nth_error slice idx with
+               | Some v => range_loop body f slice (S idx) (body st idx v)
+               | None => Oob
+               end
+      end
+    else Fin st.
+  (* [n] = i + 1 *)
+  Fixpoint down_loop {St : Type} (body : St -> nat -> A -> St) (n : nat) (slice : list A) (st : St) : loop St :=
+    match n with
+    | O => Fin st
+    | S i => match nth_error slice i with
+             | Some v => down_loop body i slice (body st i v)
+             | None => Oob
+             end
+    end.
+
+  (* the five iterating helpers written with their own index arithmetic; the
+     callback of Map/ForEach/ForEachRight/Reduce is an arbitrary state
+     transformer [cb] (its "side effect"), Map's also returns the image *)
+  Definition for_each_cb {St : Type} (cb : St -> A -> St) (slice : list A) (s0 : St) : loop St :=
+    range_loop (fun s _ v => cb s v) (length slice) slice 0 s0.
+  Definition for_each_right_cb {St : Type} (cb : St -> A -> St) (slice : list A) (s0 : St) : loop St :=
+    down_loop (fun s _ v => cb s v) (length slice) slice s0.
+  (* result[idx] = fn(v): the state is (callback state, result) *)
+  Definition map_cb {St B : Type} (cb : St -> A -> St * B) (zero : B) (slice : list A) (s0 : St) : loop (St * list B) :=
+    range_loop (fun (st : St * list B) idx v =>
+                  let (s', b) := cb (fst st) v in (s', set_nth (snd st) idx b))
+               (length slice) slice 0 (s0, repeat zero (length slice)).
+  (* actual = fn(v, actual) *)
+  Definition reduce_cb {St B : Type} (cb : St -> A -> B -> St * B) (slice : list A) (s0 : St) (init : B) : loop (St * B) :=
+    range_loop (fun (st : St * B) _ v => cb (fst st) v (snd st)) (length slice) slice 0 (s0, init).
+  Definition drop_right_while_idx (fn : A -> bool) (slice : list A) : loop (list A) :=
+    down_loop (fun r _ v => if negb (fn v) then r ++ [v] else r) (length slice) slice [].
+
+  (* the (index, element) pairs of a slice in index order *)
+  Definition indexed (l : list A) : list (nat * A) := combine (seq 0 (length l)) l.
+
+  (* the textbook drop-while (remove the longest prefix satisfying fn) — NOT
+     what DropWhile of this code base does *)
+  Fixpoint drop_prefix_while (fn : A -> bool) (l : list A) : list A :=
+    match l with
+    | [] => []
+    | x :: r => if fn x then drop_prefix_while fn r else l
+    end.
+
+  (* ReverseStr on the string itself, for an arbitrary decoder/encoder pair
+     ([]rune(str) / T(res)) *)
+  Definition reverse_str_via {B : Type} (dec : list B -> list A) (enc : list A -> list B) (s : list B) : loop (list B) :=
+    match reverse_str (dec s) with
+    | Fin r => Fin (enc r)
+    | Oob => Oob
+    | NoFuel => NoFuel
+    end.
+
+  (* ---------- reference results used by the property checker of C12_Wire.v ---------- *)
+  Definition is_square (m : list (list A)) : bool :=
+    forallb (fun row => (length row =? length m)%nat) m.
+  (* cutting more than len(l) at a time is cutting max 1 len(l) at a time: the guard keeps
+     [Z.to_nat] away from huge sizes *)
+  Definition chunk_spec_ref (l : list A) (size : Z) : res (list (list A)) :=
+    if size <=? 0 then Panic
+    else Ok (chunk_ref (length l) (Z.to_nat (Z.min size (Z.max 1 (Z.of_nat (length l))))) l).
+  (* remove n from the front / -n from the back, everything when there are not that many *)
+  Definition drop_ref (l : list A) (n : Z) : list A :=
+    let len := Z.of_nat (length l) in
+    if 0 <=? n then (if n <? len then skipn (Z.to_nat n) l else [])
+    else (if - n <? len then firstn (length l - Z.to_nat (- n)) l else []).
+  Definition transpose_ref (zero : A) (m : list (list A)) : res (list (list A)) :=
+    if is_square m then Ok (transpose zero m) else Panic.
+  Definition round_trip_ref (m : list (list A)) : res (list (list A)) :=
+    if is_square m then Ok m else Panic.
+  Definition flatten_ref (n : nest A) : res (list A) :=
+    if wf_nest n then Ok (leaves n) else Err 1.
 End Reshape.
